@@ -4,7 +4,7 @@ import math
 from ..common import b2f, f2b
 from ..gen import gen_tree, infosets_of
 from ..ops import CaseBuilder
-from ..solvers import rand_params, draws_for, level_tree
+from ..solvers import rand_params, draws_for, level_tree, alternating_tree
 
 METHODS = ["full"]
 PID = "C06"
@@ -52,13 +52,19 @@ def generate(rng, tier, n, methods=METHODS):
     while len(cases) < n:
         c = rng.random()
         ks = rng.sample([2, 3, 4, 8, 16], 2) + ([64] if rng.random() < 0.1 else [])
-        if c < 0.5:
+        if c < 0.35:
             k = ks[0]
             widths = [rng.choice([2, 3]), rng.choice([3 * k - 1, 3 * k, 3 * k + 1, 4, 7]),
                       rng.choice([3 * k - 1, 3 * k + 1, 6 * k, 9])][:rng.choice([2, 3])]
             if rng.random() < 0.5:
                 widths.append(rng.choice([4, 8, 3 * k + 2]))
             t, st = level_tree(rng, widths)
+        elif c < 0.75:
+            # small levels against a small target: the frontier expansion stops in the middle of a level and
+            # leaves a short remainder in the workspace (the shape on which state leaking from one pass or
+            # iteration into the next one, D1/D2, shows)
+            ks = [2, rng.choice([2, 3, 3, 4])]
+            t, st = alternating_tree(rng, rng.choice([4, 5, 6]), first=rng.choice([1, 2]))
         else:
             t, st = gen_tree(rng, max_nodes=rng.choice([15, 40, 80]), max_depth=rng.choice([4, 6]),
                              p_share=rng.choice([0.5, 0.8]))
